@@ -27,9 +27,10 @@ var (
 )
 
 type file struct {
-	*fileData
-	offset int64
-	flag   int
+	*fileData  // nil once closed
+	offset     int64
+	flag       int
+	closedPath string // the file's path, kept for error messages after Close
 }
 
 type fileData struct {
@@ -173,8 +174,14 @@ func (f *file) Close() error {
 	if f.fileData == nil {
 		return hackpadfs.ErrClosed
 	}
+	f.closedPath = f.path
 	f.fileData = nil
 	return nil
+}
+
+// closedErr is the error returned by every operation on a closed file
+func (f *file) closedErr(op string) error {
+	return &hackpadfs.PathError{Op: op, Path: f.closedPath, Err: hackpadfs.ErrClosed}
 }
 
 func (f *file) updateModTime() {
@@ -202,6 +209,9 @@ func (f *file) ReadAt(p []byte, off int64) (n int, err error) {
 }
 
 func (f *file) ReadBlobAt(length int, off int64) (b blob.Blob, n int, err error) {
+	if f.fileData == nil {
+		return nil, 0, f.closedErr("read")
+	}
 	if off >= int64(f.Size()) {
 		return nil, 0, io.EOF
 	}
@@ -226,6 +236,9 @@ func (f *file) ReadBlobAt(length int, off int64) (b blob.Blob, n int, err error)
 }
 
 func (f *file) Seek(offset int64, whence int) (int64, error) {
+	if f.fileData == nil {
+		return 0, f.closedErr("seek")
+	}
 	newOffset := f.offset
 	switch whence {
 	case io.SeekStart:
@@ -264,6 +277,9 @@ func (f *file) WriteBlobAt(p blob.Blob, off int64) (n int, err error) {
 }
 
 func (f *file) writeBlobAt(op string, p blob.Blob, off int64) (n int, err error) {
+	if f.fileData == nil {
+		return 0, f.closedErr(op)
+	}
 	if f.flag&hackpadfs.FlagAppend != 0 {
 		off = int64(f.Size())
 	}
@@ -295,10 +311,16 @@ func (f *file) writeBlobAt(op string, p blob.Blob, off int64) (n int, err error)
 }
 
 func (f *file) Stat() (hackpadfs.FileInfo, error) {
+	if f.fileData == nil {
+		return nil, f.closedErr("stat")
+	}
 	return fileInfo{Record: &f.runOnceFileRecord, Path: f.path}, nil
 }
 
 func (f *file) Truncate(size int64) error {
+	if f.fileData == nil {
+		return f.closedErr("truncate")
+	}
 	if f.Mode().IsDir() {
 		return &hackpadfs.PathError{Op: "truncate", Path: f.path, Err: hackpadfs.ErrIsDir}
 	}
@@ -332,6 +354,9 @@ func (f *file) Truncate(size int64) error {
 }
 
 func (f *file) ReadDir(n int) ([]hackpadfs.DirEntry, error) {
+	if f.fileData == nil {
+		return nil, f.closedErr("readdir")
+	}
 	dirNames, err := f.ReadDirNames()
 	if err != nil {
 		return nil, &hackpadfs.PathError{Op: "readdir", Path: f.path, Err: err}
@@ -386,6 +411,9 @@ func (d *dirEntry) Info() (hackpadfs.FileInfo, error) {
 }
 
 func (f *file) Chmod(mode hackpadfs.FileMode) error {
+	if f.fileData == nil {
+		return f.closedErr("chmod")
+	}
 	newMode := (f.Mode() & ^chmodBits) | (mode & chmodBits)
 	f.modeOverride = &newMode
 	return f.save()
